@@ -203,6 +203,7 @@ func nestings(g *shapeGen, leaf shape, thorough bool) []shape {
 		{"slice", "struct"}, {"map", "struct"}, {"struct", "slice"}, {"struct", "map"}, {"ptr", "struct"},
 		{"struct", "ptr"}, {"slice", "slice"}, {"map", "slice"}, {"struct", "struct"}, {"rec", "struct"},
 		{"mapnk", "struct"}, {"struct", "mapnk"}, {"anon", "slice"}, {"slice", "map"}, {"addr", "struct"}, {"struct", "deref"},
+		{"recp"}, {"struct", "recp"}, {"slice", "recp"},
 	}
 	for _, d := range deep {
 		s := leaf
